@@ -31,6 +31,7 @@ type c16ctx struct {
 func (c *c16ctx) ev(fam string) { atomic.AddInt64(&c.evals, 1); c.fam.Add(fam) }
 
 func c16(r *engine.Run) {
+	r.RaceWorkload = "hd" // supplement: free-running race-detector pass over the same API (can only add findings)
 	w, err := bip.NewWords(wordlists.English)
 	if err != nil {
 		r.Broken("word list: %v", err)
